@@ -119,7 +119,7 @@ def run(chk: Check):
         stores[base + "+playback"] = d
     typed = [t.encode("utf-8") for t in typed_api_commands()]
     sessions = []
-    n_host = 300 if chk.tier == "quick" else 20000
+    n_host = 300 if chk.tier == "quick" else 6000
     dist = {"recordings": len(stores), "typed_api_commands": len(typed), "hostile_lines_per_recording": n_host, "sessions": 0, "lines": 0, "invalid_utf8_lines": 0}
     for name in sorted(stores):
         cmds = list(typed)
